@@ -1658,6 +1658,13 @@ func c07Corpus() []*C07Case {
 		mk(c07TList(c07TFloat(2), c07TInt(2), c07TInt(3), c07TFloat(3)), s("groupByEqual", c07Fn(1, c07CArg(0)))),
 		mk(c07TList(c07TInt(1), c07TStr("a")), s("groupByEqual", c07Fn(1, c07CArg(0)))),
 		mk(c07TList(c07TList(c07TInt(1)), c07TList(c07TFloat(1))), s("groupByEqual", c07Fn(1, c07CArg(0)))),
+		mk(&Tree{Kind: "map", Repr: "funcmap-absent", Keys: []string{"a", "b"}, Items: []*Tree{c07TInt(1), c07TInt(2)}},
+			s("#observe", c07Val(c07TStr("a")), c07Val(c07TStr("b")), c07Val(c07TStr("zz")))),
+		mk(&Tree{Kind: "map", Repr: "funcmap-absent", Keys: []string{"a"}, Items: []*Tree{c07TInt(1)}},
+			s("put", c07Val(c07TStr("n")), c07Val(c07TInt(5))), s("#observe", c07Val(c07TStr("a")), c07Val(c07TStr("n")))),
+		mk(&Tree{Kind: "map", Repr: "funcmap-absent"}, s("#observe", c07Val(c07TStr("a")))),
+		mk(&Tree{Kind: "map", Repr: "tomap", Keys: []string{"a", "b"}, Items: []*Tree{c07TInt(1), c07TInt(2)}},
+			s("#observe", c07Val(c07TStr("a")), c07Val(c07TStr("zz")))),
 		c07BigReplaceWitness(25, 11), c07BigReplaceWitness(21, 12), c07BigReplaceWitness(20, 11), c07BigReplaceWitness(30, 23),
 	}
 }
@@ -1930,15 +1937,36 @@ func (r *Rng) c07MapObserveCase() *C07Case {
 	}
 	if r.Chance(0.3) {
 		c.Src.Repr = []string{"merge", "replace", "map-method"}[r.Pick(3)] // representations that iterate in key order of the tree
+	} else if r.Chance(0.5) {
+		// host-made receivers: function maps (all / some / no declared keys available), struct wrappers, Go maps
+		c.Src.Repr = []string{"funcmap", "funcmap-absent", "funcmap-absent", "tomap", "real"}[r.Pick(5)]
 	}
-	nops := []int{1, 1, 2, 2, 3, 5, 8, 12}[r.Pick(8)]
+	nops := []int{0, 1, 1, 2, 2, 3, 5, 8, 12}[r.Pick(9)]
 	onlyReplace := r.Chance(0.4)
 	for i := 0; i < nops; i++ {
 		op := r.Pick(4)
 		if onlyReplace {
 			op = 2
+		} else if r.Chance(0.15) {
+			op = 4 + r.Pick(3)
 		}
 		switch op {
+		case 4: // the map built-ins map / accept / combine on top of whatever representation is below
+			c.Steps = append(c.Steps, c07Step1("map", c07Fn(2, []*c07CExp{c07CArg(1), c07COp("+", c07CArg(0), c07CStr("!")), c07CInt(7)}[r.Pick(3)])))
+		case 5:
+			c.Steps = append(c.Steps, c07Step1("accept", c07Fn(2, c07COp([]string{"<", "!=", ">="}[r.Pick(3)], c07CArg(0), c07CStr("b")))))
+		case 6:
+			o := c07TMap(nil)
+			for k := range have {
+				if r.Chance(0.9) {
+					o.Keys = append(o.Keys, k)
+				}
+			}
+			sort.Strings(o.Keys)
+			for range o.Keys {
+				o.Items = append(o.Items, c07TInt(r.Pick(5)))
+			}
+			c.Steps = append(c.Steps, c07Step1("combine", c07Val(o), c07Fn(2, c07COp("+", c07CArg(0), c07CArg(1)))))
 		case 0: // put, mostly a new key
 			k := append(append([]string{}, pool...), odd...)[r.Pick(len(pool)+len(odd))]
 			if have[k] && r.Chance(0.93) {
@@ -2199,6 +2227,10 @@ func (c *C07Case) c07Finish() {
 		if len(exp.Keys) > 20 || len(c.Src.Keys) > 20 {
 			c.Unordered = true // flattened into a Go map: iteration order is not specified
 		}
+	}
+	switch c.Src.Repr {
+	case "real", "eval", "tomap", "put", "funcmap", "funcmap-absent":
+		c.Unordered = true // host-made or hashed receivers: the iteration order is theirs
 	}
 	if exp == nil || exp.Kind != "map" {
 		exp = c07TMap(nil)
